@@ -101,7 +101,8 @@ def id_of_bits(bits):
 class Projection:
     """The observable table: trie keys -> ids (in bucket order), plus everything odd that was seen on the way."""
 
-    def __init__(self, real, rt):
+    def __init__(self, real, rt, lookups=None):
+        """lookups: ids whose public lookup is cross-checked (None: every stored node and the trie's value list)"""
         self.buckets = {}     # prefix string -> [node ids]
         self.nodes = {}       # id -> Node object (last seen)
         self.problems = []
@@ -124,10 +125,13 @@ class Projection:
             for ch, sub in tn.children.items():
                 stack.append((key + ch, sub))
         # the table as seen through the public lookups
-        if set(map(id, rt.trie.values())) != {id(rt.trie[k]) for k in self.buckets}:
-            self.problems.append("trie.values() disagrees with the keys reachable in the trie")
-        for k, n in self.nodes.items():
-            if rt.get(k) is not n:
+        if lookups is None:
+            if set(map(id, rt.trie.values())) != {id(rt.trie[k]) for k in self.buckets}:
+                self.problems.append("trie.values() disagrees with the keys reachable in the trie")
+            lookups = self.nodes
+        for k in lookups:
+            n = self.nodes.get(k)
+            if n is not None and rt.get(k) is not n:
                 self.problems.append("RoutingTable.get(%s) does not find the stored node" % k.hex())
         self.bad = {k for k, n in self.nodes.items() if n.status == real.BAD}
 
@@ -533,7 +537,7 @@ def replay_graph(ctx, real, cfg, tag, rng, max_ops, queries_per_state, qdocs):
                     path[dst] = path[cur] + (lab,)
                     order.append(dst)
                     todo[dst] = sorted(out.get(dst, {}), key=repr)
-                    if queries_per_state:
+                    if queries_per_state and (queries_per_state > 1 or len(order) % 3 == 0):
                         query_state(real, w, p, rng, queries_per_state, qdocs, "%s:%s" % (tag, "/".join(labels)))
                 cur = dst
         except Diverged as e:
@@ -598,10 +602,13 @@ def check_coverage(r, cfg, actions):
 # binding T: seeded histories with real identifiers
 # ------------------------------------------------------------------------------------------------------
 def random_id(rng, my_int, kind):
+    """a 160 bit identifier: uniform, or sharing `shared` leading bits with our own identifier"""
     if kind == "uniform":
         return rng.getrandbits(WIDTH)
-    if kind == "tight":
+    if kind == "tight":                       # long common prefixes with us and with each other
         shared = rng.randrange(WIDTH - 24, WIDTH)
+    elif kind == "near":                      # the usual crowd around our own id
+        shared = min(WIDTH - 1, int(rng.expovariate(1 / 8.0)))
     elif kind == "clustered":
         shared = min(WIDTH - 1, int(rng.expovariate(1 / 24.0)))
     else:  # "stairs": every depth of our own path gets company
@@ -611,7 +618,10 @@ def random_id(rng, my_int, kind):
     return v | rng.getrandbits(low) if low else v
 
 
-def record_history(ctx, real, rng, kind, n_adds, cap, chunk_len, origin, gen_samples=0, gen_docs=None):
+MIXES = {"mixed": ("uniform", "clustered", "tight", "stairs"), "crowd": ("uniform", "uniform", "near")}
+
+
+def record_history(ctx, real, rng, kind, n_adds, cap, chunk_len, origin, gen_samples=0, gen_docs=None, gen_every=3):
     """-> list of chunk documents. Drives one real RoutingTable through a seeded history.
     gen_docs = (sampled, forced): lists receiving the generate_id documents of the tables that start the chunks."""
     my_int = rng.getrandbits(WIDTH)
@@ -625,13 +635,18 @@ def record_history(ctx, real, rng, kind, n_adds, cap, chunk_len, origin, gen_sam
     naddr = 0
     known = []                     # ids ever offered (for re-adds and excludes)
     step = 0
+
+    def lookups(nid):
+        # between two complete snapshots: the public lookup of the id just used and of a few stored nodes
+        ids = sorted(proj.nodes)
+        return [nid] + [ids[rng.randrange(len(ids))] for _ in range(min(4, len(ids)))]
     while adds < n_adds:
         if chunk is None or len(chunk.doc["events"]) >= chunk_len:
             if chunk is not None:
                 docs.append(chunk.doc)
             chunk = Chunk(real, my, cap, WIDTH, proj)
             chunk.doc["origin"] = "%s#%d" % (origin, len(docs))
-            if gen_samples and len(docs) % 3 == 0:
+            if gen_samples and len(docs) % gen_every == 0:
                 for forced, sink in zip((False, True), gen_docs):
                     if forced and not hasattr(real.routing, "random"):
                         continue
@@ -652,24 +667,24 @@ def record_history(ctx, real, rng, kind, n_adds, cap, chunk_len, origin, gen_sam
                 elif v < 0.12:
                     nid = my
                 else:
-                    k2 = kind if kind != "mixed" else rng.choice(("uniform", "clustered", "tight", "stairs"))
+                    k2 = rng.choice(MIXES[kind]) if kind in MIXES else kind
                     nid = random_id(rng, my_int, k2).to_bytes(20, "big")
                 known.append(nid)
                 naddr += 1
                 rtt, bad, addr = rng.choice(rtts), rng.random() < 0.12, naddr
                 rt.add(real.node(nid, rtt, bad, addr, rng))
-                proj = Projection(real, rt)
+                proj = Projection(real, rt, None if snap else lookups(nid))
                 chunk.change({"op": "add", "i": nid, "rtt": rtt, "bad": bad, "addr": addr}, before, proj, snap)
                 adds += 1
             elif u < 0.82:
                 nid = rng.choice(sorted(proj.nodes))
                 rtt, bad = rng.choice(rtts), rng.random() < 0.35
                 real.touch(proj.nodes[nid], rtt, bad, rng)
-                proj = Projection(real, rt)
+                proj = Projection(real, rt, None if snap else lookups(nid))
                 chunk.change({"op": "touch", "i": nid, "rtt": rtt, "bad": bad}, before, proj, snap)
             elif u < 0.85:
                 rt.remove_bad_nodes()
-                proj = Projection(real, rt)
+                proj = Projection(real, rt, None if snap else lookups(my))
                 chunk.change({"op": "removebad"}, before, proj, snap)
             else:
                 v = rng.random()
@@ -810,21 +825,24 @@ def run(tier, seed, replay=None):
         replay_graph(ctx, real, cfg, tag, rng, max_ops, nq, qdocs)
     ctx.cov["exhaustive"] = not quick
     if qdocs and not ctx.violations:
-        for i in range(0, len(qdocs), 4000):
-            ok, _r = validate(ctx, qdocs[i:i + 4000], "closest_model_%d" % (i // 4000))
-            if not ok:
-                break
+        for width in sorted({d["w"] for d in qdocs}):
+            part = [d for d in qdocs if d["w"] == width]
+            for i in range(0, len(part), 4000):
+                ok, _r = validate(ctx, part[i:i + 4000], "closest_model_w%d_%d" % (width, i // 4000))
+                if not ok:
+                    break
         ctx.sample({"model_table": qdocs[len(qdocs) // 2]["origin"], "queries": qdocs[len(qdocs) // 2]["events"][:2]})
 
     # ---- T + E
     if quick:
-        hist = [("mixed", 2000, 8, 60), ("uniform", 300, 8, 60), ("clustered", 300, 3, 60), ("stairs", 250, 2, 50),
-                ("tight", 200, 1, 50), ("mixed", 200, 2, 50)]
+        hist = [("crowd", 2000, 8, 60), ("stairs", 120, 2, 40), ("tight", 100, 1, 40), ("clustered", 150, 3, 50),
+                ("mixed", 120, 8, 40)]
     else:
-        hist = [("mixed", 2000, 8, 60), ("uniform", 2000, 8, 60), ("clustered", 2000, 8, 60), ("stairs", 2000, 8, 60),
-                ("tight", 2000, 8, 60), ("stairs", 2000, 2, 60), ("mixed", 2000, 3, 60), ("tight", 1000, 1, 60)]
-        hist += [(rng.choice(("mixed", "clustered", "stairs", "uniform", "tight")), 400, rng.choice((1, 2, 3, 4, 8)), 50)
-                 for _ in range(24)]
+        hist = [("crowd", 2000, 8, 60), ("uniform", 2000, 8, 60), ("clustered", 2000, 8, 60), ("mixed", 2000, 8, 60),
+                ("stairs", 1000, 8, 50), ("tight", 1000, 8, 50), ("stairs", 600, 2, 50), ("mixed", 1000, 3, 50),
+                ("tight", 400, 1, 50)]
+        hist += [(rng.choice(("mixed", "clustered", "stairs", "uniform", "tight", "crowd")), 300, rng.choice((1, 2, 3, 4, 8)), 50)
+                 for _ in range(16)]
     all_docs = []
     gen_sampled, gen_forced = [], []
     summaries = []
@@ -833,13 +851,13 @@ def run(tier, seed, replay=None):
         for hi, (kind, n, cap, clen) in enumerate(hist):
             docs, summ = record_history(ctx, real, random.Random(rng.getrandbits(64)), kind, n, cap, clen,
                                         "h%d-%s-cap%d" % (hi, kind, cap), gen_samples=2 if quick else 4,
-                                        gen_docs=(gen_sampled, gen_forced))
+                                        gen_docs=(gen_sampled, gen_forced), gen_every=8 if n >= 1000 else 3)
             all_docs += docs
             summaries.append(summ)
         ctx.note("histories", summaries)
         table_ok = not any(v[0].startswith("history:") for v in ctx.violations)
     if all_docs and table_ok:
-        batch = 60
+        batch = 80
         for i in range(0, len(all_docs), batch):
             ok, _r = validate(ctx, all_docs[i:i + batch], "trace_%d" % (i // batch))
             if not ok:
@@ -848,15 +866,17 @@ def run(tier, seed, replay=None):
         d = all_docs[0]
         ctx.sample({"history_chunk": d["origin"], "first_events": [
             {k: v for k, v in e.items() if k not in ("table", "attr")} for e in d["events"][:4]]})
-    # E: generate_id documents are validated on their own, so a defect there does not hide the table checks
-    ngen = 0
-    for docs, tag in ((gen_sampled, "generate_id_sampled"), (gen_forced, "generate_id_forced")):
-        if docs:
-            validate(ctx, docs, tag)
-            ngen += sum(len(d["events"]) for d in docs)
-    ctx.note("generate_id", {"calls_decided_by_tlc": ngen, "forced_random_source": bool(gen_forced)})
-    if gen_sampled:
-        ctx.sample({"generate_id_chunk": gen_sampled[0]["origin"], "events": gen_sampled[0]["events"][:2]})
+    # E: generate_id documents are validated on their own, so a defect there does not hide the table checks;
+    # seeded draws and forced extremes are told apart when something is rejected
+    both = gen_sampled + gen_forced
+    if both:
+        ok, _r = validate(ctx, both, "generate_id")
+        if not ok and gen_sampled and gen_forced:
+            validate(ctx, gen_sampled, "generate_id_sampled")
+            validate(ctx, gen_forced, "generate_id_forced")
+        ctx.sample({"generate_id_chunk": both[0]["origin"], "events": both[0]["events"][:2]})
+    ctx.note("generate_id", {"calls_decided_by_tlc": sum(len(d["events"]) for d in both),
+                             "random_source_forced_to_extremes": bool(gen_forced)})
 
     # ---- negative controls of the trace binding (on accepted material only)
     if all_docs and table_ok:
@@ -864,7 +884,7 @@ def run(tier, seed, replay=None):
                     validate(ctx, corrupt_closest(all_docs), "ctl", True)[0])
         ctx.control("trace whose table holds a node in a bucket that does not own it is rejected",
                     validate(ctx, corrupt_bucket(all_docs), "ctl", True)[0])
-        bad = corrupt_eviction(all_docs)
+        bad = None if quick else corrupt_eviction(all_docs)
         if bad:
             ctx.control("trace in which add() evicts a good, fast node is rejected", validate(ctx, bad, "ctl", True)[0])
     return ctx.finish()
